@@ -1194,6 +1194,20 @@ def run(ctx: Ctx):
         ctx.log(f"translation failed (continuing with the FALLBACK model): {ex}")
         gen = {"Gen_C05.v": tr.FALLBACK}
     ctx.cov["src_cfg"] = gen["Gen_C05.v"].strip().splitlines()[-1]
+    # recognisers that knew the code only in its normal form (helpers inlined, aliases substituted ...): which rewrites
+    ctx.cov["translator_normal_form_used"] = [f"{w}: {', '.join(rw)}" for w, rw in tr.NORMAL_FORM_USED][:12]
+    if tr.NORMAL_FORM_USED:
+        # the table was read from a normal form: the normaliser's own differential self-test (every sample function run as
+        # written and in normal form on the same inputs: results, exceptions, side-effect traces) must pass in this run
+        try:
+            from translator import c02_norm
+            st = c02_norm.selftest()
+            ctx.cov["normaliser_selftest"] = dict(functions=st.get("functions"), runs=st.get("runs"),
+                                                  failures=len(st.get("failures") or []))
+            if st.get("failures"):
+                ctx.broken.append(Broken("translation", "translator/c02_norm.py self-test", str(st["failures"])[:600]))
+        except Exception as ex:  # noqa: BLE001
+            ctx.broken.append(Broken("translation", "translator/c02_norm.py self-test", f"{type(ex).__name__}: {ex}"))
     set_flags(gen["Gen_C05.v"])
     import time
     t0 = time.time()
